@@ -10,19 +10,20 @@ set_option linter.unusedSimpArgs false
 set_option linter.unusedVariables false
 namespace SpyneModel.Conc
 
-theorem sysStep_isWsdl (F : Facts12) (s : SysState) (i : Nat) : (sysStep F s i).isWsdl = s.isWsdl := by
+theorem sysStep_isWsdl (F : Facts12) (O : Nat → Fail) (s : SysState) (i : Nat) :
+    (sysStep F O s i).isWsdl = s.isWsdl := by
   unfold sysStep; split <;> rfl
 
 /-- projection of a system run onto its two components -/
-theorem sysRun_proj (F : Facts12) (sched : List Nat) : ∀ s : SysState,
-    (sysRun F s sched).isWsdl = s.isWsdl ∧
-    (sysRun F s sched).w = run F.builderResets F.wsdlSkeleton s.w (sched.filter s.isWsdl) ∧
-    (sysRun F s sched).r = rrun F.rfacts s.r (sched.filter (fun i => !s.isWsdl i)) := by
+theorem sysRun_proj (F : Facts12) (O : Nat → Fail) (sched : List Nat) : ∀ s : SysState,
+    (sysRun F O s sched).isWsdl = s.isWsdl ∧
+    (sysRun F O s sched).w = run (F.cfg O) F.wsdlSkeleton s.w (sched.filter s.isWsdl) ∧
+    (sysRun F O s sched).r = rrun F.rfacts s.r (sched.filter (fun i => !s.isWsdl i)) := by
   induction sched with
   | nil => intro s; exact ⟨rfl, rfl, rfl⟩
   | cons i rest ih =>
     intro s
-    obtain ⟨h1, h2, h3⟩ := ih (sysStep F s i)
+    obtain ⟨h1, h2, h3⟩ := ih (sysStep F O s i)
     simp only [sysRun]
     rw [sysStep_isWsdl] at h1 h2 h3
     refine ⟨h1, ?_, ?_⟩
@@ -36,7 +37,7 @@ theorem sysRun_proj (F : Facts12) (sched : List Nat) : ∀ s : SysState,
       · simp [hk, List.filter, rrun]
 
 theorem good_safe (F : Facts12) (hG : F.Good) (op : ROp) (h : op.isPark = false) : op.Safe F.rfacts := by
-  obtain ⟨_, h1, h2, h3, h4, h5, _, h7⟩ := hG
+  obtain ⟨_, _, h1, h2, h3, h4, h5, _, h7⟩ := hG
   have hctx : ∀ c, F.rfacts.ctxShared c = false := by intro c; simp [Facts12.rfacts, h7]
   cases op with
   | probe k => trivial
@@ -55,7 +56,7 @@ theorem faithful_allsafe (F : Facts12) (hG : F.Good) (q : Req) (hq : q.Faithful 
     AllSafe F.rfacts q.local := by
   intro op hop
   apply good_safe F hG
-  have hp : F.parked = [] := hG.2.2.2.2.2.2.1
+  have hp : F.parked = [] := hG.2.2.2.2.2.2.2.1
   cases q with
   | wsdl => simp [Req.local] at hop
   | rpc a inv p =>
@@ -72,28 +73,33 @@ theorem sysInit_isWsdl (reqs : List Req) (i : Nat) (hi : i < reqs.length) :
     (sysInit reqs).isWsdl i = (reqs[i]).isWsdl := by
   simp [sysInit, hi]
 
+theorem no_failure_allOk (rs : Bool) : ¬ HasFailure { resets := rs, fail := allOk } := by
+  intro ⟨k, hk⟩; exact hk rfl
+
 /-- a `?wsdl` request processed alone is served the sequential document -/
-theorem alone_wsdl (F : Facts12) (hG : F.Good) : alone F .wsdl = some (.doc (some .whole)) := by
+theorem alone_wsdl (F : Facts12) (hG : F.Good) : alone F .wsdl = some (.doc (.doc (some .whole))) := by
   unfold alone
-  obtain ⟨_, h2, _⟩ := sysRun_proj F (List.replicate (Req.fuel F .wsdl) 0) (sysInit [.wsdl])
+  obtain ⟨_, h2, _⟩ := sysRun_proj F allOk (List.replicate (Req.fuel F .wsdl) 0) (sysInit [.wsdl])
   have hw : (sysInit [Req.wsdl]).isWsdl 0 = true := rfl
   have hflt : List.filter (sysInit [Req.wsdl]).isWsdl (List.replicate (Req.fuel F .wsdl) 0)
-      = List.replicate 18 0 := by
+      = List.replicate 23 0 := by
     simp only [Req.fuel, hG.1, expectedSkeleton, List.length_cons, List.length_nil]
     simp [List.filter_replicate, hw]
   unfold SysState.response
-  rw [(sysRun_proj F _ _).1, hw, h2, hflt, hG.1]
+  rw [(sysRun_proj F allOk _ _).1, hw, h2, hflt, hG.1]
   simp only [if_true]
   have : (sysInit [Req.wsdl]).w = init := rfl
   rw [this]
-  cases F.builderResets <;> decide
+  have hc : F.cfg allOk = { resets := true, fail := allOk } := by simp [Facts12.cfg, hG.2.1]
+  rw [hc]
+  decide +kernel
 
 /-- an RPC request processed alone observes `soloObs` -/
 theorem alone_rpc (F : Facts12) (hG : F.Good) (a : Nat) (inv : Bool) (p : List ROp)
     (hq : (Req.rpc a inv p).Faithful F) :
     alone F (.rpc a inv p) = some (.body (soloObs a inv p none (fun _ => none))) := by
   unfold alone
-  obtain ⟨h1, _, h3⟩ := sysRun_proj F (List.replicate (Req.fuel F (.rpc a inv p)) 0) (sysInit [.rpc a inv p])
+  obtain ⟨h1, _, h3⟩ := sysRun_proj F allOk (List.replicate (Req.fuel F (.rpc a inv p)) 0) (sysInit [.rpc a inv p])
   have hw : (sysInit [Req.rpc a inv p]).isWsdl 0 = false := rfl
   have hflt : List.filter (fun i => !(sysInit [Req.rpc a inv p]).isWsdl i)
       (List.replicate (Req.fuel F (.rpc a inv p)) 0) = List.replicate p.length 0 := by
@@ -120,9 +126,9 @@ theorem alone_rpc (F : Facts12) (hG : F.Good) (a : Nat) (inv : Bool) (p : List R
 /-- MAIN (whole system) -/
 theorem sys_main (F : Facts12) (hG : F.Good) (reqs : List Req) (hf : ∀ q ∈ reqs, q.Faithful F)
     (sched : List Nat) (i : Nat) (hi : i < reqs.length) (r : Resp)
-    (hr : (sysRun F (sysInit reqs) sched).response i = some r) :
+    (hr : (sysRun F allOk (sysInit reqs) sched).response i = some r) :
     alone F reqs[i] = some r := by
-  obtain ⟨h1, h2, h3⟩ := sysRun_proj F sched (sysInit reqs)
+  obtain ⟨h1, h2, h3⟩ := sysRun_proj F allOk sched (sysInit reqs)
   unfold SysState.response at hr
   rw [h1, sysInit_isWsdl reqs i hi] at hr
   cases hq : reqs[i] with
@@ -132,11 +138,12 @@ theorem sys_main (F : Facts12) (hG : F.Good) (reqs : List Req) (hf : ∀ q ∈ r
     rw [h2, hG.1] at hr
     have hw : (sysInit reqs).w = init := rfl
     rw [hw] at hr
-    have hinv := (ginv_reachable F.builderResets (List.filter (sysInit reqs).isWsdl sched)).thr i
+    have hinv := (ginv_reachable (F.cfg allOk) hG.2.1 (List.filter (sysInit reqs).isWsdl sched)).thr i
     unfold State.responded at hr
-    rcases hinv.resp_ok with h0 | h0
+    rcases hinv.resp_ok with h0 | h0 | h0
     · rw [h0] at hr; simp at hr
     · rw [h0] at hr; simp at hr; rw [← hr]
+    · exact absurd (hinv.e1 (Or.inr (Or.inr h0))) (no_failure_allOk _)
   | rpc a inv p =>
     have hmem : Req.rpc a inv p ∈ reqs := hq ▸ List.getElem_mem hi
     rw [alone_rpc F hG a inv p (hf _ hmem)]
@@ -161,11 +168,11 @@ theorem sys_main (F : Facts12) (hG : F.Good) (reqs : List Req) (hf : ∀ q ∈ r
       rw [← hr]
     · simp at hr
 
-/-- the whole system builds the WSDL at most once -/
+/-- the whole system builds the WSDL at most once (no injected failure) -/
 theorem sys_builds (F : Facts12) (hG : F.Good) (reqs : List Req) (sched : List Nat) :
-    (sysRun F (sysInit reqs) sched).w.builds ≤ 1 := by
-  obtain ⟨_, h2, _⟩ := sysRun_proj F sched (sysInit reqs)
+    (sysRun F allOk (sysInit reqs) sched).w.builds ≤ 1 := by
+  obtain ⟨_, h2, _⟩ := sysRun_proj F allOk sched (sysInit reqs)
   rw [h2, hG.1]
-  exact (ginv_reachable F.builderResets _).b1
+  exact builds_le_one _ _ (ginv_reachable (F.cfg allOk) hG.2.1 _) (no_failure_allOk _)
 
 end SpyneModel.Conc
